@@ -1,5 +1,5 @@
-(* subscription_context / paused_subscription_context: exit restores the entry state exactly when the
-   remove-while-iterating loop left the intended list (Model/ClientSubs.v: sub_ctx_ok / pause_ctx_ok). *)
+(* subscription_context / paused_subscription_context (as repaired by 651ddd8 and aa63f93): exit restores
+   the entry state, for every reachable entry state and every list of individual types. *)
 From Coq Require Import ZArith List Bool String Lia ZifyBool.
 From Cli Require Import Model.SubBase Lib.PyList Gen.ClientSub Gen.MgrSub Model.ClientSubs
   Proofs.SetLemmas Proofs.PyListProofs Proofs.SubsProofs.
@@ -10,30 +10,21 @@ Definition same_client (c c' : cstate) : Prop :=
   (forall x, mem x (subscribed c') = mem x (subscribed c)) /\
   (forall x, mem x (paused c') = mem x (paused c)) /\ sub_all c' = sub_all c.
 
-Lemma mem_false_of_incl (l l' : list Z) a : (forall y, In y l' -> In y l) -> mem a l = false -> mem a l' = false.
-Proof. intros H M. apply mem_false_iff. intros C. apply mem_false_iff in M. apply M. exact (H a C). Qed.
-
 (* one individual-type control call from a not-subscribed-to-all state *)
 Lemma ctrl_step_ind s k l : sub_all (cl s) = false -> mem ALL l = false ->
   ctrl_step s k l = (mkS (spec_ind k (cl s) (to_set l))
                          (mgr_recv_all (mg s) (map (fun t => (kmt k, t)) (to_set l))), None).
 Proof. intros A HA. unfold ctrl_step. rewrite sub_ctrl_eq, HA, A. reflexivity. Qed.
 
-Lemma ctx_cycle_ind s k1 k2 o1 o2 l :
-  (forall s, sys_step s o1 = ctrl_step s k1 l) -> (forall s, sys_step s o2 = ctrl_step s k2 l) ->
+(* ... as a system step: the new client state, Inv preserved, still not subscribed to all *)
+Lemma step_ind s k o l : (forall s, sys_step s o = ctrl_step s k l) ->
   Inv s -> sub_all (cl s) = false -> mem ALL l = false ->
-  let c1 := spec_ind k1 (cl s) (to_set l) in
-  let c2 := spec_ind k2 c1 (to_set l) in
-  exists s1 s2, ctx_cycle o1 o2 s = (CtxOk s2, Some s1) /\ cl s1 = c1 /\ cl s2 = c2 /\ Inv s1 /\ Inv s2.
+  exists s', sys_step s o = (s', None) /\ cl s' = spec_ind k (cl s) (to_set l) /\ Inv s' /\ sub_all (cl s') = false.
 Proof.
-  intros E1 E2 HI A HA c1 c2. unfold ctx_cycle. rewrite E1, (ctrl_step_ind s k1 l A HA).
-  set (s1 := mkS _ _). assert (A1 : sub_all (cl s1) = false) by (destruct k1; exact A).
-  rewrite E2, (ctrl_step_ind s1 k2 l A1 HA). eexists. eexists. split; [reflexivity|].
-  split; [reflexivity|]. split; [reflexivity|].
-  assert (I1 : Inv s1).
-  { pose proof (ctrl_step_Inv s k1 l HI) as H. rewrite (ctrl_step_ind s k1 l A HA) in H. exact H. }
-  split; [exact I1|].
-  pose proof (ctrl_step_Inv s1 k2 l I1) as H. rewrite (ctrl_step_ind s1 k2 l A1 HA) in H. exact H.
+  intros E HI A HA. rewrite E, (ctrl_step_ind s k l A HA). eexists. split; [reflexivity|]. split; [reflexivity|].
+  split.
+  - pose proof (ctrl_step_Inv s k l HI) as H. rewrite (ctrl_step_ind s k l A HA) in H. exact H.
+  - destruct k; exact A.
 Qed.
 
 Lemma same_client_delivered s s' : Inv s -> Inv s' -> same_client (cl s) (cl s') ->
@@ -46,147 +37,89 @@ Qed.
 (* ---------------- subscription_context ---------------- *)
 
 Theorem sub_ctx_restore s l : Inv s -> sub_all (cl s) = false -> mem ALL l = false ->
-  sub_ctx_ok (cl s) l = true ->
   exists s_in s', subscription_context s l = (CtxOk s', Some s_in) /\
     same_client (cl s) (cl s') /\ (forall t, delivered (mg s') t = delivered (mg s) t) /\
     (forall t, mem t l = true -> reported (cl s_in) t = true /\ delivered (mg s_in) t = true).
 Proof.
-  intros HI A HA OK. unfold subscription_context. unfold sub_ctx_ok in OK.
-  destruct (sub_ctx_list (cl s) l) as [l'|] eqn:L; [|discriminate].
-  assert (HA' : mem ALL l' = false) by (apply (mem_false_of_incl l l' ALL (iter_remove_incl _ _ _ L) HA)).
-  destruct (ctx_cycle_ind s KSub KUnsub (OSub l') (OUnsub l') l' (fun _ => eq_refl) (fun _ => eq_refl) HI A HA')
-    as (s1 & s2 & E & C1 & C2 & I1 & I2).
-  exists s1, s2. split; [exact E|].
-  assert (F : forall x, mem x l' = true -> mem x (subscribed (cl s)) = false /\ mem x (paused (cl s)) = false).
-  { intros x Hx. rewrite forallb_forall in OK. apply mem_true_iff in Hx. specialize (OK x Hx).
-    apply andb_true_iff in OK. destruct OK as [O1 O2]. apply negb_true_iff in O1, O2. split; assumption. }
-  assert (SC : same_client (cl s) (cl s2)).
-  { unfold same_client. rewrite C2. cbn [spec_ind subscribed paused sub_all]. repeat split; try reflexivity; intros x;
-      autorewrite with memdb; (destruct (mem x l') eqn:M; [destruct (F x M) as [F1 F2]; rewrite ?F1, ?F2|]);
-      cbn; rewrite ?andb_true_r, ?andb_false_r, ?orb_false_r; reflexivity. }
-  split; [exact SC|]. split; [exact (same_client_delivered s s2 HI I2 SC)|].
-  intros t Ht. destruct (Inv_agree s1 I1) as [AG _]. rewrite <- AG.
-  assert (R : reported (cl s1) t = true); [|split; exact R].
-  unfold reported. rewrite C1. cbn [spec_ind subscribed sub_all]. rewrite A. cbn [orb]. autorewrite with memdb.
-  (* every entry of l is subscribed inside the body: either it was already, or it survived into l' *)
-  destruct (mem t (subscribed (cl s))) eqn:S; [reflexivity|]. cbn [orb].
-  apply mem_true_iff. unfold sub_ctx_list in L. apply (iter_remove_keeps _ _ _ t L).
-  - rewrite mem_to_set. exact S.
-  - apply mem_true_iff. exact Ht.
-Qed.
-
-(* exactness: whenever the side condition fails, the entry state is NOT restored *)
-Theorem sub_ctx_not_restored s l : Inv s -> sub_all (cl s) = false -> mem ALL l = false ->
-  sub_ctx_ok (cl s) l = false ->
-  exists s_in s', subscription_context s l = (CtxOk s', Some s_in) /\ ~ same_client (cl s) (cl s').
-Proof.
-  intros HI A HA OK. unfold subscription_context. unfold sub_ctx_ok in OK.
-  destruct (iter_remove_total (fun mt => mem mt (to_set (subscribed (cl s)))) l) as [l' L].
-  unfold sub_ctx_list in *. rewrite L in *.
-  assert (HA' : mem ALL l' = false) by (apply (mem_false_of_incl l l' ALL (iter_remove_incl _ _ _ L) HA)).
-  destruct (ctx_cycle_ind s KSub KUnsub (OSub l') (OUnsub l') l' (fun _ => eq_refl) (fun _ => eq_refl) HI A HA')
-    as (s1 & s2 & E & C1 & C2 & I1 & I2).
-  exists s1, s2. split; [exact E|]. intros (S1 & S2 & _).
-  assert (X : exists x, In x l' /\ (mem x (subscribed (cl s)) = true \/ mem x (paused (cl s)) = true)).
-  { clear - OK. induction l' as [|y r IH]; [discriminate|]. cbn [forallb] in OK. apply andb_false_iff in OK.
-    destruct OK as [O|O].
-    - exists y. split; [left; reflexivity|]. destruct (mem y (subscribed (cl s))); [left; reflexivity|].
-      destruct (mem y (paused (cl s))); [right; reflexivity|discriminate].
-    - destruct (IH O) as (x & Hx & Hc). exists x. split; [right; exact Hx|exact Hc]. }
-  destruct X as (x & Hx & Hc). apply mem_true_iff in Hx. specialize (S1 x). specialize (S2 x).
-  rewrite C2 in S1, S2. cbn [spec_ind subscribed paused] in S1, S2. autorewrite with memdb in S1, S2.
-  rewrite Hx in S1, S2. cbn in S1, S2. rewrite ?andb_false_r in S1, S2. destruct Hc; congruence.
+  intros HI A HA. unfold subscription_context.
+  set (l' := sub_ctx_list (cl s) l). set (wp := filter (fun mt => mem mt (to_set (paused (cl s)))) l').
+  assert (F : forall x, mem x l' = mem x l && negb (mem x (subscribed (cl s)))).
+  { intros x. unfold l', sub_ctx_list. rewrite mem_copy_remove, mem_to_set. reflexivity. }
+  assert (W : forall x, mem x wp = mem x l' && mem x (paused (cl s))).
+  { intros x. unfold wp. rewrite mem_filter, mem_to_set. reflexivity. }
+  assert (HA' : mem ALL l' = false) by (rewrite F, HA; reflexivity).
+  assert (HW : mem ALL wp = false) by (rewrite W, HA'; reflexivity).
+  destruct (step_ind s KSub (OSub l') l' (fun _ => eq_refl) HI A HA') as (s1 & E1 & C1 & I1 & A1).
+  destruct (step_ind s1 KUnsub (OUnsub l') l' (fun _ => eq_refl) I1 A1 HA') as (s2 & E2 & C2 & I2 & A2).
+  assert (IN : forall t, mem t l = true -> reported (cl s1) t = true /\ delivered (mg s1) t = true).
+  { intros t Ht. destruct (Inv_agree s1 I1) as [AG _]. rewrite <- AG.
+    assert (R : reported (cl s1) t = true); [|split; exact R].
+    unfold reported. rewrite C1. cbn [spec_ind subscribed sub_all]. rewrite A. cbn [orb].
+    autorewrite with memdb. rewrite F, Ht. destruct (mem t (subscribed (cl s))); reflexivity. }
+  unfold ctx_cycle. rewrite E1. destruct wp as [|w wr] eqn:EW.
+  - cbn [ctx_exit]. rewrite E2. exists s1, s2. split; [reflexivity|].
+    assert (SC : same_client (cl s) (cl s2)).
+    { unfold same_client. rewrite C2, C1. cbn [spec_ind subscribed paused sub_all].
+      split; [|split; [|reflexivity]]; intros x; autorewrite with memdb; pose proof (W x) as Wx; rewrite F in *;
+        cbn [mem existsb] in Wx; destruct (mem x l), (mem x (subscribed (cl s))), (mem x (paused (cl s)));
+        cbn in *; congruence. }
+    split; [exact SC|]. split; [exact (same_client_delivered s s2 HI I2 SC)|exact IN].
+  - rewrite <- EW in *. clear EW.
+    destruct (step_ind s2 KPause (OPause wp) wp (fun _ => eq_refl) I2 A2 HW) as (s3 & E3 & C3 & I3 & A3).
+    cbn [ctx_exit]. rewrite E2, E3. exists s1, s3. split; [reflexivity|].
+    assert (SC : same_client (cl s) (cl s3)).
+    { unfold same_client. rewrite C3, C2, C1. cbn [spec_ind subscribed paused sub_all].
+      split; [|split; [|reflexivity]]; intros x; autorewrite with memdb; rewrite ?W, ?F;
+        destruct (mem x l), (mem x (subscribed (cl s))), (mem x (paused (cl s))); reflexivity. }
+    split; [exact SC|]. split; [exact (same_client_delivered s s3 HI I3 SC)|exact IN].
 Qed.
 
 (* in the subscribed-to-all state the context is refused on entry and nothing changes *)
-Theorem sub_ctx_refused s l l' : sub_all (cl s) = true -> mem ALL l = false -> sub_ctx_list (cl s) l = Some l' ->
+Theorem sub_ctx_refused s l : sub_all (cl s) = true -> mem ALL l = false ->
   subscription_context s l = (CtxEnterRaised EInvalidSubscription s, None).
 Proof.
-  intros A HA L. unfold subscription_context. rewrite L.
-  assert (HA' : mem ALL l' = false) by (apply (mem_false_of_incl l l' ALL (iter_remove_incl _ _ _ L) HA)).
-  unfold ctx_cycle. change (sys_step s (OSub l')) with (ctrl_step s KSub l'). unfold ctrl_step.
+  intros A HA. unfold subscription_context, ctx_cycle.
+  set (l' := sub_ctx_list (cl s) l).
+  assert (HA' : mem ALL l' = false).
+  { unfold l', sub_ctx_list. rewrite mem_copy_remove, HA. reflexivity. }
+  change (sys_step s (OSub l')) with (ctrl_step s KSub l'). unfold ctrl_step.
   rewrite sub_ctrl_eq, HA', A. destruct s; reflexivity.
-Qed.
-
-(* the syntactic side condition implies the semantic one *)
-Lemma sub_ctx_ok_syntactic c l :
-  nodupb l = true -> no_adjacent (fun t => mem t (subscribed c)) l = true ->
-  forallb (fun t => negb (mem t (paused c))) l = true -> sub_ctx_ok c l = true.
-Proof.
-  intros H1 H2 H3. unfold sub_ctx_ok, sub_ctx_list.
-  rewrite (iter_remove_ideal (fun mt => mem mt (to_set (subscribed c))) l H1).
-  - apply forallb_forall. intros x Hx. apply filter_In in Hx. destruct Hx as [Hx Px]. rewrite mem_to_set in Px.
-    rewrite Px. rewrite forallb_forall in H3. rewrite (H3 x Hx). reflexivity.
-  - rewrite <- H2. apply no_adjacent_ext. intros x. apply mem_to_set.
 Qed.
 
 (* ---------------- paused_subscription_context ---------------- *)
 
 Theorem pause_ctx_restore s l : Inv s -> sub_all (cl s) = false -> mem ALL l = false ->
-  pause_ctx_ok (cl s) l = true ->
   exists s_in s', paused_subscription_context s l = (CtxOk s', Some s_in) /\
     same_client (cl s) (cl s') /\ (forall t, delivered (mg s') t = delivered (mg s) t) /\
     (forall t, mem t l = true -> reported (cl s_in) t = false /\ delivered (mg s_in) t = false).
 Proof.
-  intros HI A HA OK. unfold paused_subscription_context. unfold pause_ctx_ok in OK.
-  destruct (pause_ctx_list (cl s) l) as [l'|] eqn:L; [|discriminate].
-  assert (HA' : mem ALL l' = false) by (apply (mem_false_of_incl l l' ALL (iter_remove_incl _ _ _ L) HA)).
-  destruct (ctx_cycle_ind s KPause KResume (OPause l') (OResume l') l' (fun _ => eq_refl) (fun _ => eq_refl) HI A HA')
-    as (s1 & s2 & E & C1 & C2 & I1 & I2).
-  exists s1, s2. split; [exact E|].
+  intros HI A HA. unfold paused_subscription_context.
+  set (l' := pause_ctx_list (cl s) l).
+  assert (F : forall x, mem x l' = mem x l && mem x (subscribed (cl s))).
+  { intros x. unfold l', pause_ctx_list. rewrite mem_copy_remove, mem_to_set, negb_involutive. reflexivity. }
+  assert (HA' : mem ALL l' = false) by (rewrite F, HA; reflexivity).
   pose proof HI as HI'. unfold Inv in HI'. rewrite A in HI'. destruct HI' as (_ & _ & DJ & _).
-  assert (F : forall x, mem x l' = true -> mem x (subscribed (cl s)) = true /\ mem x (paused (cl s)) = false).
-  { intros x Hx. rewrite forallb_forall in OK. apply mem_true_iff in Hx. specialize (OK x Hx).
-    split; [exact OK|]. specialize (DJ x). rewrite OK in DJ. exact DJ. }
+  destruct (step_ind s KPause (OPause l') l' (fun _ => eq_refl) HI A HA') as (s1 & E1 & C1 & I1 & A1).
+  destruct (step_ind s1 KResume (OResume l') l' (fun _ => eq_refl) I1 A1 HA') as (s2 & E2 & C2 & I2 & A2).
+  unfold ctx_cycle. rewrite E1. cbn [ctx_exit]. rewrite E2. exists s1, s2. split; [reflexivity|].
   assert (SC : same_client (cl s) (cl s2)).
-  { unfold same_client. rewrite C2. cbn [spec_ind subscribed paused sub_all]. repeat split; try reflexivity; intros x;
-      autorewrite with memdb; (destruct (mem x l') eqn:M; [destruct (F x M) as [F1 F2]; rewrite ?F1, ?F2|]);
-      cbn; rewrite ?andb_true_r, ?andb_false_r, ?orb_false_r; reflexivity. }
+  { unfold same_client. rewrite C2, C1. cbn [spec_ind subscribed paused sub_all].
+    split; [|split; [|reflexivity]]; intros x; autorewrite with memdb; rewrite ?F; specialize (DJ x);
+      destruct (mem x l), (mem x (subscribed (cl s))), (mem x (paused (cl s))); cbn in *; congruence. }
   split; [exact SC|]. split; [exact (same_client_delivered s s2 HI I2 SC)|].
   intros t Ht. destruct (Inv_agree s1 I1) as [AG _]. rewrite <- AG.
   assert (R : reported (cl s1) t = false); [|split; exact R].
-  unfold reported. rewrite C1. cbn [spec_ind subscribed sub_all]. rewrite A. cbn [orb]. autorewrite with memdb.
-  destruct (mem t (subscribed (cl s))) eqn:S; [|reflexivity]. cbn [andb].
-  apply negb_false_iff. apply mem_true_iff. unfold pause_ctx_list in L. apply (iter_remove_keeps _ _ _ t L).
-  - rewrite mem_to_set, S. reflexivity.
-  - apply mem_true_iff. exact Ht.
+  unfold reported. rewrite C1. cbn [spec_ind subscribed sub_all]. rewrite A. cbn [orb].
+  autorewrite with memdb. rewrite F, Ht. destruct (mem t (subscribed (cl s))); reflexivity.
 Qed.
 
-Theorem pause_ctx_not_restored s l : Inv s -> sub_all (cl s) = false -> mem ALL l = false ->
-  pause_ctx_ok (cl s) l = false ->
-  exists s_in s', paused_subscription_context s l = (CtxOk s', Some s_in) /\ ~ same_client (cl s) (cl s').
-Proof.
-  intros HI A HA OK. unfold paused_subscription_context. unfold pause_ctx_ok in OK.
-  destruct (iter_remove_total (fun mt => negb (mem mt (to_set (subscribed (cl s))))) l) as [l' L].
-  unfold pause_ctx_list in *. rewrite L in *.
-  assert (HA' : mem ALL l' = false) by (apply (mem_false_of_incl l l' ALL (iter_remove_incl _ _ _ L) HA)).
-  destruct (ctx_cycle_ind s KPause KResume (OPause l') (OResume l') l' (fun _ => eq_refl) (fun _ => eq_refl) HI A HA')
-    as (s1 & s2 & E & C1 & C2 & I1 & I2).
-  exists s1, s2. split; [exact E|]. intros (S1 & _ & _).
-  assert (X : exists x, In x l' /\ mem x (subscribed (cl s)) = false).
-  { clear - OK. induction l' as [|y r IH]; [discriminate|]. cbn [forallb] in OK. apply andb_false_iff in OK.
-    destruct OK as [O|O]; [exists y; split; [left; reflexivity|exact O]|].
-    destruct (IH O) as (x & Hx & Hc). exists x. split; [right; exact Hx|exact Hc]. }
-  destruct X as (x & Hx & Hc). apply mem_true_iff in Hx. specialize (S1 x).
-  rewrite C2 in S1. cbn [spec_ind subscribed paused] in S1. autorewrite with memdb in S1.
-  rewrite Hx, Hc in S1. cbn in S1. discriminate.
-Qed.
-
-Theorem pause_ctx_refused s l l' : sub_all (cl s) = true -> mem ALL l = false -> pause_ctx_list (cl s) l = Some l' ->
+Theorem pause_ctx_refused s l : sub_all (cl s) = true -> mem ALL l = false ->
   paused_subscription_context s l = (CtxEnterRaised EInvalidSubscription s, None).
 Proof.
-  intros A HA L. unfold paused_subscription_context. rewrite L.
-  assert (HA' : mem ALL l' = false) by (apply (mem_false_of_incl l l' ALL (iter_remove_incl _ _ _ L) HA)).
-  unfold ctx_cycle. change (sys_step s (OPause l')) with (ctrl_step s KPause l'). unfold ctrl_step.
+  intros A HA. unfold paused_subscription_context, ctx_cycle.
+  set (l' := pause_ctx_list (cl s) l).
+  assert (HA' : mem ALL l' = false).
+  { unfold l', pause_ctx_list. rewrite mem_copy_remove, HA. reflexivity. }
+  change (sys_step s (OPause l')) with (ctrl_step s KPause l'). unfold ctrl_step.
   rewrite sub_ctrl_eq, HA', A. destruct s; reflexivity.
-Qed.
-
-Lemma pause_ctx_ok_syntactic c l :
-  nodupb l = true -> no_adjacent (fun t => negb (mem t (subscribed c))) l = true -> pause_ctx_ok c l = true.
-Proof.
-  intros H1 H2. unfold pause_ctx_ok, pause_ctx_list.
-  rewrite (iter_remove_ideal (fun mt => negb (mem mt (to_set (subscribed c)))) l H1).
-  - apply forallb_forall. intros x Hx. apply filter_In in Hx. destruct Hx as [Hx Px]. rewrite mem_to_set in Px.
-    apply negb_true_iff in Px. apply negb_false_iff in Px. exact Px.
-  - rewrite <- H2. apply no_adjacent_ext. intros x. rewrite mem_to_set. reflexivity.
 Qed.
